@@ -3,3 +3,4 @@ import Hyeong.Props.C07
 #print axioms HyN.C07.cmp_eq_iff
 #print axioms HyN.C07.cmp_gt_iff
 #print axioms HyN.C07.cmp_nan_iff
+#print axioms HyN.C07.branch_rule
